@@ -73,7 +73,7 @@ pub fn truncate_and_round_decimal(
     // Check if we're truncating, if so, shorten the digits in the input.
     if options.round_mode() == RoundMode::Truncate {
         // Don't round input, just shorten number of digits emitted.
-        return (max_digits, false);
+        return (rtrim_zeros(digits, max_digits), false);
     }
 
     // We need to round-nearest, tie-even, so we need to handle
@@ -86,7 +86,7 @@ pub fn truncate_and_round_decimal(
     let truncated = digits[max_digits];
     let (digits, carried) = if truncated < b'5' {
         // Just truncate, going to round-down anyway.
-        (max_digits, false)
+        (rtrim_zeros(digits, max_digits), false)
     } else if truncated > b'5' {
         // Round-up always.
         round_up(digits, max_digits, 10)
@@ -100,11 +100,24 @@ pub fn truncate_and_round_decimal(
             // digit_count`.
             round_up(digits, max_digits, 10)
         } else {
-            (max_digits, false)
+            (rtrim_zeros(digits, max_digits), false)
         }
     };
 
     (digits, carried)
+}
+
+/// Get the number of digits without the trailing zeros (but at least 1).
+///
+/// The digits kept after truncation may end in zeros, which are not
+/// significant: `1.004` with 2 digits is `1`, not `1.0`, so it is padded,
+/// trimmed and written the same way as the float `1.0`.
+#[inline(always)]
+fn rtrim_zeros(digits: &[u8], mut count: usize) -> usize {
+    while count > 1 && digits[count - 1] == b'0' {
+        count -= 1;
+    }
+    count
 }
 
 /// Write the sign for the exponent.
